@@ -3,6 +3,7 @@ of the architecture (Model/CostGrad.v `net`) read back from the real layer objec
 import math, random, traceback
 from .common import *
 from . import gen_arch as ga
+from . import c04_net as cn      # gen_arch + the production 'a layer invoked twice per forward' (reuse nodes)
 
 STD_SPECS = ['params', 'ops', 'params_no_bias', 'ops_no_bias']
 DY = [k / 16.0 for k in range(-24, 25) if k != 0]          # dyadic magnitudes 1/16 .. 3/2, both signs
@@ -23,9 +24,15 @@ def _fl(x, n):
 
 def orig_cost_from_shapes(spec, which):
     """cost of the ORIGINAL model computed from the static layer shapes of the architecture (independent of PIT)"""
-    sh = ga.shapes(spec)
+    sh = cn.shapes(spec)
     tot = 0
     for i, nd in enumerate(spec['nodes']):
+        if nd['k'] == 'reuse':
+            # a second call site of the layer of node nd['layer']: specs that count every invocation (shared=False: ops,
+            # ops_no_bias) cost it again with the output size of THIS call site; the others count a layer once
+            if not which.startswith('ops'):
+                continue
+            nd = dict(spec['nodes'][nd['layer']])
         if nd['k'] not in ('conv1d', 'conv2d', 'linear'):
             continue
         cin, cout = nd['cin'], nd['cout']
@@ -216,7 +223,7 @@ def restore_flags(p, flags):
         q.requires_grad = f
 
 
-def pit_case(torch, seed, style, full=False):
+def pit_case(torch, seed, style, full=False, twice=False):
     """-> JSON-able observation dict of one network (exceptions are observations).
     full: full_cost=True with 1-2 cost-bearing layers excluded by name (costed with their static sizes), one
     single-specification wrapper per metric, metrics read in seeded orders"""
@@ -224,9 +231,10 @@ def pit_case(torch, seed, style, full=False):
     from plinio.methods import PIT
     rng = random.Random(seed)
     dim = rng.choice([1, 1, 2])
-    spec = ga.gen(rng, dim=dim, conv_head=True, k1d=list(range(1, 13)))
-    o = {'seed': seed, 'style': style, 'full': full, 'arch': ga.describe(spec), 'dim': dim, 'skip': None, 'fails': [], 'specs': {}, 'productions': spec.get('productions', [])}
-    o['topo'] = 'dw-after-cat' if ga.has_dw_after_cat(spec) else ('add-of-cat' if ga.has_add_of_cat(spec) else None)
+    # twice: every network contains a layer instance invoked at two call sites (c04_net), often with different output sizes
+    spec = cn.gen(rng, dim=dim, conv_head=True, k1d=list(range(1, 13)), p_twice=1.0) if twice else ga.gen(rng, dim=dim, conv_head=True, k1d=list(range(1, 13)))
+    o = {'seed': seed, 'style': style, 'full': full, 'twice': twice, 'arch': cn.describe(spec), 'dim': dim, 'skip': None, 'fails': [], 'specs': {}, 'productions': spec.get('productions', [])}
+    o['topo'] = cn.skip_reason(spec)
     stage = 'build'
     try:
         specs = _specs(dim)
@@ -240,18 +248,18 @@ def pit_case(torch, seed, style, full=False):
             o['excluded'] = kw['exclude_names']
         rng.shuffle(names)                      # the metrics of the dictionary are read in a seeded order
         o['order'] = list(names)
-        m = ga.build(spec, seed=seed)
+        m = cn.build(spec, seed=seed)
         xs = ga.example_input(spec, torch, seed)
         stage = 'wrap'
         p = PIT(m, input_shape=tuple(spec['input_shape']), cost=dict(specs), **kw)
         # single specifications: one metric (all metrics in the full_cost stream)
-        singles = {w: PIT(ga.build(spec, seed=seed), input_shape=tuple(spec['input_shape']), cost=specs[w], **kw) for w in (names if full else [single])}
+        singles = {w: PIT(cn.build(spec, seed=seed), input_shape=tuple(spec['input_shape']), cost=specs[w], **kw) for w in (names if full else [single])}
         # the same network traced with an input_example of one sample and of several samples (other values)
         gx = torch.Generator().manual_seed(seed + 3)
         nb = rng.randint(2, 8)
         o['example_batch'] = nb
-        others = {'input_example[1]': PIT(ga.build(spec, seed=seed), input_example=torch.randn((1,) + tuple(spec['input_shape']), generator=gx), cost=dict(specs), **kw),
-                  'input_example[%d]' % nb: PIT(ga.build(spec, seed=seed), input_example=torch.randn((nb,) + tuple(spec['input_shape']), generator=gx) * 3.0, cost=dict(specs), **kw)}
+        others = {'input_example[1]': PIT(cn.build(spec, seed=seed), input_example=torch.randn((1,) + tuple(spec['input_shape']), generator=gx), cost=dict(specs), **kw),
+                  'input_example[%d]' % nb: PIT(cn.build(spec, seed=seed), input_example=torch.randn((nb,) + tuple(spec['input_shape']), generator=gx) * 3.0, cost=dict(specs), **kw)}
         nas = [(n, q) for n, q in p.named_nas_parameters()]
         train = [(n, q) for n, q in nas if q.requires_grad]
         flags0 = [(q, bool(q.requires_grad)) for q in p.parameters()]
@@ -376,7 +384,7 @@ def pit_case(torch, seed, style, full=False):
         # the element and non-zero for every trainable non keep-alive element whose increase raises the (now step-wise) metric
         stage = 'discrete'
         setall(vals0)
-        pd = PIT(ga.build(spec, seed=seed), input_shape=tuple(spec['input_shape']), cost=dict(specs), discrete_cost=True, **kw)
+        pd = PIT(cn.build(spec, seed=seed), input_shape=tuple(spec['input_shape']), cost=dict(specs), discrete_cost=True, **kw)
         pdp = dict(pd.named_parameters())
         with torch.no_grad():
             for n, q in train:
@@ -468,7 +476,7 @@ def pit_case(torch, seed, style, full=False):
         stage = 'constructor-switch'
         off = rng.choice(['train_features', 'train_rf', 'train_dilation'])
         o['constructed_off'] = off
-        pc = PIT(ga.build(spec, seed=seed), input_shape=tuple(spec['input_shape']), cost=dict(specs), **dict(kw, **{off: False}))
+        pc = PIT(cn.build(spec, seed=seed), input_shape=tuple(spec['input_shape']), cost=dict(specs), **dict(kw, **{off: False}))
         pcp = dict(pc.named_parameters())
         with torch.no_grad():
             for n, q in train:
@@ -499,7 +507,7 @@ def pit_case(torch, seed, style, full=False):
         for w_, sw in singles.items():
             sw.cost_specification = specs[w_]
         setall(vals0)
-        fresh = PIT(ga.build(spec, seed=seed), input_shape=tuple(spec['input_shape']), cost=dict(specs), **kw)
+        fresh = PIT(cn.build(spec, seed=seed), input_shape=tuple(spec['input_shape']), cost=dict(specs), **kw)
         fnas = dict(fresh.named_nas_parameters())
         for n, q in train:
             _set(torch, fnas[n], vals0[n])
